@@ -28,6 +28,7 @@ type scope struct {
 	preferLocal bool // local(x): an address-taken parameter is read from its cell (current value), not its entry value
 	world       int  // world index "W" refers to
 	nq          int
+	freeCells   map[string]Val // captured variables of a closure whose contract is applied at a call site (cell addresses)
 	pkg         *ssa.Package // package whose constants / variables are in scope (callee contracts)
 }
 
@@ -40,7 +41,7 @@ func (s *scope) addVars(m map[string]Val) {
 }
 
 func (s *scope) child() *scope {
-	n := &scope{vars: map[string]Val{}, extra: s.extra, oldHeap: s.oldHeap, oldWorlds: s.oldWorlds, inOld: s.inOld, inQuant: s.inQuant, world: s.world, nq: s.nq, pkg: s.pkg, preferLocal: s.preferLocal, headHeap: s.headHeap, headWorlds: s.headWorlds, headCounts: s.headCounts, headSyms: s.headSyms, inHead: s.inHead}
+	n := &scope{vars: map[string]Val{}, extra: s.extra, oldHeap: s.oldHeap, oldWorlds: s.oldWorlds, inOld: s.inOld, inQuant: s.inQuant, world: s.world, nq: s.nq, pkg: s.pkg, preferLocal: s.preferLocal, headHeap: s.headHeap, headWorlds: s.headWorlds, headCounts: s.headCounts, headSyms: s.headSyms, inHead: s.inHead, freeCells: s.freeCells}
 	for k, v := range s.vars {
 		n.vars[k] = v
 	}
@@ -112,6 +113,9 @@ func (x *Exec) lookupIdent(st *State, fr *Frame, name string, sc *scope) (Val, e
 			fmt.Fprintf(os.Stderr, "ident %s from sc.vars: %s\n", name, v.T.S)
 		}
 		return v, nil
+	}
+	if c, ok := sc.freeCells[name]; ok {
+		return x.bindingValDeref(st, sc, c)
 	}
 	if fr != nil {
 		if sc.preferLocal {
